@@ -124,7 +124,7 @@ class UnitX(Unit):
                           {'at': 'for mut child in children', 'call': 'let mut i__: usize = 0; while i__ < children.len()', 'type': '-', 'note': INDEX_LOOP_NOTE}],
                   inserts=[{'pos': 'body_start', 'text': BROADCAST + '\n' + reveal('choice', 'sequence', 'attributeGroup')},
                            {'at': 'for mut child in children', 'text': '    let ghost kids = elem_kids(*node);\n    let ghost out0 = base_fields@;'}],
-                  loops={0: {'kind': 'for',
+                  loops={0: {'kind': 'for', 'match': 'for mut child in children',
                              'invariants': [('node-fixed', '*node == *old(node)'),
                                             ('children-fixed', 'kids == elem_kids(*node) && children@ == kids && i__ <= children.len()'),
                                             ('fields-so-far', 'appended(out0, base_fields@, flat(*node, i__ as nat))')],
@@ -164,7 +164,7 @@ class UnitX(Unit):
                           {'at': 'base.children().filter(Node::is_element)', 'call': 'element_children(base)', 'type': 'Vec<Node>', 'note': ELEM_CHILDREN_NOTE}],
                   inserts=[{'pos': 'body_start', 'text': BROADCAST + '\n' + reveal('extension', 'sequence', 'attribute', 'base')},
                            {'at': 'let has_sequence', 'text': UNIQ_EXT}],
-                  loops={0: {'kind': 'for', 'iter': 'it',
+                  loops={0: {'kind': 'for', 'iter': 'it', 'match': 'in base.children()',
                              'invariants': [('extension-fixed', 'base == base0 && it.seq() == elem_kids(base) && has_sequence == has_seq(base)'),
                                             ('fields-so-far', 'appended(start, base_fields@, ext_own(base, it.index@ as nat))')],
                              'body_prefix': BROADCAST + '\n            proof { assert(n == elem_kids(base)[it.index@ as int]); }'}})
@@ -177,7 +177,7 @@ class UnitX(Unit):
                   inserts=[{'pos': 'body_start', 'text': BROADCAST + '\n' + reveal('sequence')},
                            {'at': 'for n in', 'text': '    let ghost node0 = node;\n    let ghost after_ext = base_fields@;'},
                            {'at': 'let struct_props', 'text': '    proof { if no_seq_kid(node) { lemma_cc_own_empty(node, elem_kids(node).len()); assert(base_fields@ =~= after_ext); } }'}],
-                  loops={0: {'kind': 'for', 'iter': 'it',
+                  loops={0: {'kind': 'for', 'iter': 'it', 'match': 'in node.children()',
                              'invariants': [('node-fixed', 'node == node0 && it.seq() == elem_kids(node)'),
                                             ('fields-so-far', 'appended(after_ext, base_fields@, cc_own(node, it.index@ as nat))')],
                              'body_prefix': BROADCAST + '\n        proof { assert(n == elem_kids(node)[it.index@ as int]); }'}})
@@ -235,7 +235,7 @@ class UnitX(Unit):
                            {'at': 'Ok(result)', 'text': '        proof {\n            let at = attrs_between(node, cj + 1, elem_kids(node).len());\n'
                                                         '            assert(result.fields@.take(result.fields@.len() - at.len()) =~= cfs);\n'
                                                         '            if cj >= 0 { assert(content_ok(cdoc, elem_kids(node)[cj], result.fields@.take(result.fields@.len() - at.len()))); }\n        }'}],
-                  loops={0: {'kind': 'for', 'iter': 'it',
+                  loops={0: {'kind': 'for', 'iter': 'it', 'match': 'in node.children()',
                              'invariants': [('content-child-tracked', 'it.seq() == elem_kids(node) && cj == last_content(node, it.index@ as nat) && cj < it.index@ '
                                                                       '&& (cj < 0 ==> cfs.len() == 0) && (cj >= 0 ==> content_ok(cdoc, elem_kids(node)[cj], cfs))'),
                                             ('fields-so-far', 'appended(cfs, result.fields@, attrs_between(node, cj + 1, it.index@ as nat))')],
